@@ -90,7 +90,9 @@ CLAIMED = {
              "path (columns_rows + validation_rows -> read_columns_rows, read_validation_rows, sort_specs, build_columns, "
              "build_tables of pkg_open) returns exactly the column list given, in order, for EVERY column list create_table "
              "accepts (accepted_cols_storable: the acceptance checks imply the round-trip hypotheses); >32 columns, no key, "
-             "width>255, empty or ';' enumeration values are refused with the package unchanged.  Masks and limits are "
+             "width>255, empty or ';' enumeration values are refused with the package unchanged; end to end "
+             "(created_table_reopens): a table accepted on a reachable package is reported with exactly the columns given, "
+             "immediately and after saving and reopening.  Masks and limits are "
              "regenerated from the source.  Correspondence: all 65,536 type words through the hook, all flag combinations x "
              "15 widths, 26 categories, random column lists, observed through get_table().columns() before and after reopen.  "
              "Persistence of the catalog rows themselves rests on the row/pool round trips (C01).",
@@ -147,19 +149,23 @@ CLAIMED = {
         technique="Coq proof (case analysis on the package state machine) + write-counting correspondence",
         design="4 C16"),
     "C02": dict(
-        text="PARTIAL.  Reader-side theorems quantified over every well-formed value of the format (not over the library's own "
-             "output): the pool reader inverts any well-formed UTF-8 pool - two- and three-byte references, unused entries, "
-             "duplicate strings, over-counted references, strings above 64 KiB (long-string escape); the table reader inverts any "
-             "column-major stream of well-typed rows in any row order with either reference width and never yields an ill-typed "
-             "cell; type words incl. integer field sizes 1/2/4; the catalog reader rebuilds any accepted column list; the "
-             "property-set reader any well-formed set; all readers total.  NOT proved: the composition for a whole foreign file "
-             "(catalog rows in any order, _Validation absent, property-set layouts other than the writer's, non-UTF-8 pages).  "
-             "That composition is decided by the correspondence: databases produced by an independent encoder written from the "
-             "format description (tools/msienc.py: every feature above, 6 code pages, 3 property-set layouts) are wrapped with "
-             "the cfb crate, opened, compared in full with the encoder's abstract database, modified through the API and "
-             "decoded again by the independent decoder (tools/msidec.py).",
+        text="Theorem C02_open_encoded: for EVERY container that is the serialisation of some abstract state - pool laid out in any "
+             "way the format allows (entry order, unused entries empty or still holding stale text, duplicate strings, over-counted "
+             "references, two- or three-byte references), the rows of every table incl. the catalog tables in ANY order, with or "
+             "without a _Validation table; no sortedness, no exact accounting assumed - Package::open returns exactly that state, "
+             "and every table reads back as the encoded rows; every state the library saves is such an encoding; a hand-made "
+             "non-canonical witness (three-byte references, no _Validation, stale/duplicate/over-counted pool entries, descending "
+             "_Columns rows) satisfies the reader invariant, violates the writer invariant and opens to itself.  Component "
+             "theorems: pool reader for any readable pool incl. the long-string escape, table reader for any row order, type words "
+             "incl. integer field sizes 1/2/4, catalog reader, property-set reader, totality of all readers.  Changes made "
+             "afterwards through the API preserve untouched content: C03 frame theorems (every other table, streams, summary "
+             "untouched) and C01.  PARTIAL for: property-set layouts other than the writer's (value order, gaps) and non-UTF-8 "
+             "code pages - decided by the correspondence: databases from an independent encoder written from the format "
+             "description (tools/msienc.py: every feature above, 6 code pages, 3 property-set layouts, summary without a code page "
+             "property) are wrapped with the cfb crate, opened, compared in full with the encoder's abstract database, modified "
+             "through the API and decoded again by the independent decoder (tools/msidec.py).",
         note="Trusted: Coq kernel, translator, extraction, harness, the independent encoder/decoder/property-set parser.",
-        technique="Coq proof (codec round trips by induction, lia) + correspondence against an independent encoder",
+        technique="Coq proof (order-invariant reader lemmas, codec round trips by induction) + correspondence against an independent encoder",
         design="4 C02"),
     "C09": dict(
         text="Theorems over the stream-level model, for EVERY container (any streams holding any bytes): Package::open, the pool, "
